@@ -75,12 +75,9 @@ func (m *Dev) CheckFrame(lay *LedLayout, frame [][3]byte, ext Ext, pal *Palette)
 	}
 	offset := 12*m.Oct + m.Semi
 	mp := &m.D.Mappings[m.Map]
-	// keys of the main sub-handler in the current mapping: code -> base note
+	// keys of the current mapping, whichever sub-handler reports them: code -> base note
 	base := map[uint16]int{}
 	for _, sk := range mp.Keys {
-		if sk.Sub != "" {
-			continue
-		}
 		for _, k := range sk.Keys {
 			base[k.Code] = k.Note
 		}
